@@ -62,6 +62,7 @@ type FuncSpec struct {
 	Loops       map[int]*LoopSpec
 	Asserts     []*AssertSpec
 	Trusted     bool // contract assumed, body not verified
+	ImplCheck   bool // with Trusted: the body is still checked for panics, at-call asserts and `impl.` postconditions
 	Pure        bool // modifies nothing
 	Inline      bool
 	Overflow    bool
@@ -221,6 +222,8 @@ func parseContractFile(path, pkgPath string, ps *PkgSpec) error {
 					switch fl {
 					case "trusted":
 						cur.Trusted = true
+					case "implcheck":
+						cur.ImplCheck = true
 					case "pure":
 						cur.Pure = true
 					case "inline":
